@@ -610,9 +610,9 @@ ChkStmt(s, defs) ==
     [] s.s = "pcopy" -> <<\A j \in 1..Len(s.rhss) : ArgOK(s.rhss[j], defs), defs \cup SeqSet(s.lhss)>>
     [] s.s = "if" -> LET t == Chk(s.th, defs) e == Chk(s.el, defs)
                      IN <<ArgOK(s.cond, defs) /\ t[1] /\ e[1], t[2] \cap e[2]>>
-    [] s.s = "loop" -> LET \* a loop variable that the body assigns is a loop-carried variable for the converter:
-                           \* its first read needs a definition in front of the loop
-                           d1 == IF s.iter = NONE \/ s.iter \in Assigned(s.body) THEN defs ELSE defs \cup {s.iter}
+    [] s.s = "loop" -> LET \* the loop variable is the iteration number at the start of every iteration, also when the
+                           \* body assigns it (before the fix af87660 in /repo a carried variable of that name shadowed it)
+                           d1 == IF s.iter = NONE THEN defs ELSE defs \cup {s.iter}
                            b == Chk(s.body, d1)
                        IN << /\ ArgOK(s.bound, defs)
                              /\ (s.iter # NONE /\ s.bound.a = "none" => s.brk = "ok")   \* range(None); design: a counter
@@ -656,9 +656,9 @@ ExecStmt(s, env) ==
 Exec(ss, env) == IF ss = <<>> THEN env ELSE Exec(Tail(ss), ExecStmt(Head(ss), env))
 ExecLoop(s, env, i, n, fuel) ==
   IF fuel = 0 \/ (s.bound.a # "none" /\ i >= n) \/ (s.cond # NONE /\ ~Truth(Get(env, s.cond))) THEN env
-  \* a loop variable that the body assigns is, for the converter, a loop-carried variable that shadows the
-  \* iteration number (the state variables are bound after the loop variable)
-  ELSE ExecLoop(s, Exec(s.body, IF s.iter = NONE \/ s.iter \in Assigned(s.body) THEN env ELSE (s.iter :> IntV(i)) @@ env), i + 1, n, fuel - 1)
+  \* Python (and, since the fix af87660 in /repo, the converter): the loop variable is the iteration number at the start
+  \* of every iteration even when the body assigns it
+  ELSE ExecLoop(s, Exec(s.body, IF s.iter = NONE THEN env ELSE (s.iter :> IntV(i)) @@ env), i + 1, n, fuel - 1)
 PyRun(p, tv) ==
   LET actual == <<tv.X, tv.N, tv.B>> \o (IF Len(p.params) > 3 THEN <<Num(2)>> ELSE <<>>)
       env0 == [n \in SeqSet(p.params) \cup {q[1] : q \in p.prebound} |->
